@@ -122,17 +122,20 @@ class C01(PropCheck):
                   "get_key_bound, get_raw_fails, get_tampered_fails (term / version / transplant), get_last_written "
                   "(refinement to a map across rotations), rotate_preserves_reads — all for unbounded histories; "
                   "direct_writers_allowed over the go/types-regenerated table of direct physical writers; "
-                  "raw_direct_only_for_fixed_set / raw_plain_path_direct_only_fixed / raw_direct_only_for_fixed_set_partial "
-                  "over a transliteration of RawBackend.storageByPath (which sys/raw requests get the unencrypted direct "
-                  "access), with raw_direct_only_for_fixed_set_cex for the namespace-UUID alias (finding F47). Model tied to the "
+                  "raw_direct_only_for_fixed_set_full / raw_direct_only_for_fixed_set / raw_plain_path_direct_only_fixed / "
+                  "raw_uuid_alias_behind_barrier over a transliteration of RawBackend.storageByPath WITH the F47 repair "
+                  "(which sys/raw requests get the unencrypted direct access: only the exact full paths core/seal-config "
+                  "and core/recovery-config). Model tied to the "
                   "Go code on every run by stream `barrier` (real barrier on inmem, independent AEAD opens, tamper sweeps) and "
                   "the property predicate (only sealed records written; tampered/transplanted reads error; no plaintext or "
                   "key fragment in the physical store) is evaluated on every implementation output")
     level_note = ("trusted: Lean kernel; AES-GCM idealised (opens only under the same key and AAD; bodies unforgeable) — made "
                   "concrete on every run by independent crypto/cipher opens; hand-written model and its differential tie; "
                   "the go/types extractor; allow-list classes are a reading of the property's fixed set. Known deviations: F12 "
-                  "(UIConfig.save writes sys/config/ui headers in clear, by design), F47 (sys/raw namespaces/<root-uuid>/core/"
-                  "seal-config selects the direct access). Boundary: version 2 binds no AAD for the "
+                  "(UIConfig.save writes sys/config/ui headers in clear, by design). F47 (sys/raw namespaces/<root-uuid>/core/"
+                  "seal-config selected the direct access) is repaired by fixes/C01-F47-raw-direct-only-for-exact-path.patch; "
+                  "the model follows the repaired code and the predicate keeps signature raw-direct-via-namespace-uuid-alias "
+                  "armed. Boundary: version 2 binds no AAD for the "
                   "EMPTY storage path (theorem empty_path_relocatable; no server path writes it). Seal/unseal is C10")
     assumptions = [
         "AES-GCM (crypto/cipher) is an ideal AEAD: a body opens only under the key and AAD it was sealed with; nonces are fresh",
